@@ -96,6 +96,10 @@ fn check(c: &Case, lo: &mut Local, st: &mut Stats) -> Result<(), Failure> {
                     ));
                 }
                 st.label(&format!("complete:{}+{}", join_class(d.chars().last().unwrap_or_default()), join_class(sbn.chars().next().unwrap_or_default())));
+                let (lc, fc) = (d.chars().last().unwrap_or_default(), sbn.chars().next().unwrap_or_default());
+                if model::is_any_sign(lc) && model::is_any_sign(fc) {
+                    st.label(&format!("complete-sign-pair:U+{:04X}+U+{:04X}", lc as u32, fc as u32));
+                }
             }
             if !direct.is_empty() {
                 st.nontrivial(hash_of(&(&c.lead, &c.base, &c.suffix, &c.trail)), || json!({"typed": full, "direct_candidates_of_base": direct, "list": r.cands}));
@@ -118,6 +122,7 @@ fn base_pool() -> Vec<String> {
         }
     }
     v.extend(pools().ac_keys.iter().filter(|k| k.chars().all(|c| c.is_ascii_alphanumeric())).cloned());
+    v.extend(crate::gen::guided_bases().iter().map(|(l, _)| l.clone()));
     for w in ["hothat", "ebong", "i", "onno", "kkhet", "form", "format", "computer", "sesh", "bangla", "kotha", "jibon", "desh", "manush", "boi", "nodi", "ma", "baba", "din", "rat", "sat", "ut", "sot", "bhobishyot", "sonG", "rong", "dhong", "ong"] {
         v.push(w.to_string());
     }
@@ -159,11 +164,39 @@ pub fn run(run: &Run) {
             Ok(())
         },
     );
+    // joining-rule matrix: every guided base (all final characters of dictionary words) x one suffix key
+    // per distinct first character of a Bengali suffix form
+    let mut reps: std::collections::BTreeMap<char, Vec<String>> = std::collections::BTreeMap::new();
+    for k in &sk {
+        if let Some(c) = model::data().suffix.get(k).and_then(|v| v.chars().next()) {
+            let e = reps.entry(c).or_default();
+            if e.len() < 2 {
+                e.push(k.clone());
+            }
+        }
+    }
+    let rep_keys: Vec<String> = reps.values().flatten().cloned().collect();
+    let guided: Vec<String> = crate::gen::guided_bases().iter().map(|(l, _)| l.clone()).collect();
+    run.exhaustive(
+        "joining-rule-matrix",
+        &guided,
+        |_| mk_local(),
+        |base, st, lo| {
+            for s in &rep_keys {
+                st.evals(1);
+                let c = Case { lead: String::new(), base: base.clone(), suffix: s.clone(), trail: String::new() };
+                checked(&c, lo, st)?;
+            }
+            Ok(())
+        },
+    );
+    run.stats.lock().unwrap().count("distinct-first-characters-of-suffix-forms", reps.len() as u64);
     run.sharded("generated-triples", 16, run.tier.pick(600, 20000), 800, strategy, |_| mk_local(), |c: &Case, st, lo| checked(c, lo, st));
     run.require_label("suffix-keys-covered", model::data().suffix_keys.len() as u64 - 5);
     run.require_label("join:t+s", 1);
     run.require_label("join:n+c", 1);
     run.require_label("join:s+s", 1);
+    run.stats.lock().unwrap().count("guided-bases-in-pool", crate::gen::guided_bases().len() as u64);
 }
 
 pub fn replay(_run: &Run, case: &Value) -> Result<(), Failure> {
